@@ -9,7 +9,6 @@ package checks
 
 import (
 	"fmt"
-	"os"
 	"sort"
 	"strings"
 
@@ -189,13 +188,15 @@ func C05(tier common.Tier) int {
 	if thorough {
 		pos, rc = "{param 1/1, param 2/2, result 1/1, result 2/2} x receiver {value, pointer} x {plain, &}", "all ordered pairs and triples from a pool of 11 annotations"
 	}
-	run.SetRule("state = one annotated type with its @implements lines inside a generated package (cases are packed ~48 per program; every program is type-checked by go/types and analysed by the real analyzers through checker.Analyze). Invariant per state: the implementschecker diagnostics on the type's line (code, interface, list of missing methods) equal what go/types says: qualifier bound as a package name in the file scope, interface-typed TypeName in the resolved package's scope, types.Implements / NewMethodSet / Identical for T or *T. Non-trivial = the reference expects at least one diagnostic.",
+	run.SetRule("state = one annotated type with its @implements lines inside a generated package (cases are packed ~48 per program; every program is type-checked by go/types and analysed by the real analyzers through checker.Analyze). Invariant per state: the implementschecker diagnostics on the type's line (code, interface, list of missing methods) equal what go/types says: IMPL01 iff no import declaration of the file brings a package in under the qualifier (explicit alias other than _ and ., else types.Package.Name() of the imported package; cross-checked against the file scope's PkgName binding), else IMPL02 iff the resolved package's scope has no interface-typed TypeName of that name, else IMPL03 iff !types.Implements(V, I) for V = T or *T, listing exactly the methods of I that types.NewMethodSet(V) lacks or has with a type that is not types.Identical. Non-trivial = the reference expects at least one diagnostic.",
 		fmt.Sprintf("%d cases in %d programs [%s]; signature alphabet of %d type expressions, full product interface-side x implementation-side in positions %s; parameter/result lists of length 0-2 over {int,string} plus variadic/slice last parameter; %d method sources x %d interface shapes x {plain,&}; unexported-method grid; 3-method listing grid (3^3); %d import configurations x import order {alone, after, before an unrelated import} x qualifier kinds x %d interface-name kinds; %s",
 			total, len(batches), strings.Join(fl, " "), len(c05Tau), pos, len(c05Srcs), len(c05Shapes), len(c05ImpCfgs), len(c05StdInames), rc))
 	run.Assume("go/parser, go/types (Implements, MissingMethod, NewMethodSet, Identical, file scopes) and checker.Analyze trusted",
 		"type aliases are materialised (*types.Alias, the default of the go 1.25 toolchain that builds both the harness and the tool)",
 		"the generated files do not exist on disk, so diagnostics carry no source excerpt; the excerpt is C19's subject")
-	run.NotJudged("generic interfaces / types", "an @implements line on a type alias declaration (the quantifier says defined types)",
+	run.Assume("a blank or dot import counts as importing the package under its declared name (the statement says 'under its explicit alias or the imported package's declared name'; `import _ \"io\"` is the documented way to make io.Reader referable and the repository's integration fixtures rely on it)")
+	run.NotJudged("an import renamed by an explicit alias referenced by its declared name or path element instead of the alias (the statement binds `its explicit alias or the imported package's declared name` and does not say the alias hides the name)", "the qualifier `_`",
+		"generic interfaces / types", "an @implements line on a type alias declaration (the quantifier says defined types)",
 		"qualifiers that are not a single word (yaml.v3.I, foo-go.I): outside the annotation grammar, C15's subject",
 		"unexported interface names of another package", "interfaces with type-set elements (~int, unions)",
 		"annotated types inside grouped or function-local declarations (layout is C12's subject)")
@@ -213,11 +214,6 @@ func C05(tier common.Tier) int {
 			}
 		}
 	})
-	if os.Getenv("MC_C05_DUMP") != "" {
-		for s, n := range run.AllSigs() {
-			fmt.Fprintf(os.Stderr, "%6d %s\n", n, s)
-		}
-	}
 	return run.Finish()
 }
 
